@@ -1,9 +1,9 @@
 #!/usr/bin/env python3
 """keep_seed.py ID M  -- copy a confirmed seeded change from /tmp/out_<ID>/<M> into /verif/seeded/<ID>-<M>/"""
-import json, shutil, sys
+import json, os, shutil, sys
 from pathlib import Path
 ID, M = sys.argv[1], sys.argv[2]
-src = Path(f"/tmp/out_{ID}/{M}")
+src = Path(os.environ.get("OUTPREFIX", "/tmp/out_") + f"{ID}/{M}")
 ver = json.loads((src / "verify.json").read_text())
 assert ver["demo_clean_rc"] == 0 and ver["demo_patched_rc"] != 0 and ver["tests_rc"] == 0, ver
 dst = Path(f"/verif/seeded/{ID}-{M}")
